@@ -359,6 +359,12 @@ pub fn check_compiled(rep: &mut Report, prop: &str, batch: &[Pre], engine: Engin
     let ends = run_compiled(&pairs, engine, family);
     for (p, e) in elig.iter().zip(ends.iter()) {
         rep.count("compiled_runs");
+        if let EngineEnd::Rec(r) = e {
+            if r.soaked > 0 {
+                rep.count("soaked_compiled_cases");
+                rep.add("soak_extra_executions_and_recompilations_on_one_compiled_vm", r.soaked as u64);
+            }
+        }
         if rep.want_sample() && rep.get("compiled_runs") % 101 == 1 {
             rep.sample(witness(p, json!({"engine": engine.name()})));
         }
